@@ -28,7 +28,7 @@ RULE = ("Random grids (2-8 points, gaps 60 s..7 d, given shuffled with a duplica
         "late fold or warm-up or markov).")
 ASSUMPTIONS = ["when a new-date notification must be sent is not stated by the property: only its stamp and position are judged",
                "episodes aborted by TrackRecord's duplicate-timestamp rejection (DESIGN 4.2-c) are judged on the delivered prefix"]
-REQUIRED = ["C04:delivery-sequence", "C04:second-observer", "C04:timestamps-nondecreasing", "C04:env-notification-stamp",
+REQUIRED = ["C04:exchange-exactly-once", "C04:delivery-sequence", "C04:second-observer", "C04:timestamps-nondecreasing", "C04:env-notification-stamp",
             "C04:clock-in-callback", "C04:rebalance-stamp", "C04:latency-refused"]
 REQUIRED_CATS = ["add_timesteps", "add_custom_events", "latency>0", "markov", "warmup", "late-fold", "episode-length", "event-after-grid", "event-before-grid",
                  "event-at-latency-bound"]
@@ -169,6 +169,7 @@ def case(ctx, i, tier):
             steps = sorted({G[slot(e)] for e in live if s <= G[slot(e)] <= e_})
             del sink.log[:]
             del sink2.log[:]
+            del sink.exchange_log[:]
             np.random.seed(ctx.np_seed)
             try:
                 env.reset(fold)
@@ -229,6 +230,10 @@ def case(ctx, i, tier):
                 continue
             ctx.check("C04:delivery-sequence", got == exp, fold=fold, latency=L, markov=markov, warmup=warm,
                       got=got[:40], want=exp[:40])
+            # the exchange is an observer too: every delivered quote reaches it exactly once, in order
+            ex_want = [x[1] for x in log if x[0] == "M" and isinstance(x[5], EventNBBO)]
+            ctx.check("C04:exchange-exactly-once", [u for u in sink.exchange_log if u is not None] == ex_want,
+                      got=sink.exchange_log[:30], want=ex_want[:30])
             ab = {e.uid for e in evs if isinstance(e, (ep.EvA, ep.EvB))}
             exp2 = [x[1] for x in exp if x[0] == "M" and x[1] in ab]
             ctx.check("C04:second-observer", [x[1] for x in sink2.log] == exp2, got=[x[1] for x in sink2.log][:30], want=exp2[:30])
